@@ -121,11 +121,15 @@ impl Runner for BashRunner {
         let shell = self.shell.to_owned();
 
         // render the bash script
-        let state_directory_str = self.state_directory.to_string_lossy();
-        // the shell expression goes in last, so that nothing that looks like
-        // a placeholder within it is being replaced
-        let expression = BASH_TEMPLATE
-            .replace("{state_directory}", &state_directory_str)
+        // the state directory goes in quoted for the shell and after the other
+        // values, the shell expression goes in last: nothing that looks like a
+        // placeholder within either of them is being replaced
+        let state_directory_str =
+            shell_escape::unix::escape(self.state_directory.to_string_lossy()).to_string();
+        let (head, tail) = BASH_TEMPLATE
+            .split_once("{shell_expression}")
+            .expect("template contains the shell expression placeholder");
+        let head = head
             .replace("{name}", name)
             .replace("{excluded_variables}", &BASH_EXCLUDED_VARIABLES.join("|"))
             .replace(
@@ -136,7 +140,8 @@ impl Runner for BashRunner {
                     "1"
                 },
             )
-            .replace("{shell_expression}", &testcase.shell_expression);
+            .replace("{state_directory}", &state_directory_str);
+        let expression = format!("{head}{}{tail}", &testcase.shell_expression);
         trace!("compiled expression {}", &expression);
 
         let mut testcase = testcase.clone();
